@@ -1405,3 +1405,70 @@ Proof.
   exists (rev r). rewrite <- (rev_involutive l), Er. reflexivity.
 Qed.
 End Oracle.
+
+(* ------------------------------------------------------------------ strict creation
+   (ZOPE_INTERFACE_STRICT_IRO=1): computing the __sro__ of a specification whose bases all have
+   a C3 order raises exactly when the specification itself has none, and otherwise yields it *)
+Section StrictSro.
+Variable g : graph.
+Variable rk : nat -> nat.
+Variable root : nat.
+Hypothesis W : wf rk (bases g).
+Hypothesis R0 : bases g root = [].
+Let B := bases g.
+Let Br := rooted root (bases g).
+
+Lemma calc_sro_strict f F x : rk x < S f -> rk x < F ->
+  (forall b, In b (bases g x) -> c3_lin Br (S F) b <> None) ->
+  calc_sro true root (S f) g (fresh_sro f root g) x =
+  match c3_lin Br (S F) x with Some l => ROk l false | None => RRaise end.
+Proof.
+  intros Hf HF HB. pose proof (wf_rooted g rk root W) as Wr. fold Br in Wr.
+  unfold calc_sro. rewrite (c3_lin_S Br).
+  destruct (Nat.eqb x root) eqn:Ex.
+  - apply Nat.eqb_eq in Ex. subst. unfold Br. rewrite !(Br_root g root). reflexivity.
+  - apply Nat.eqb_neq in Ex. set (M := fresh_sro f root g).
+    destruct F as [|F]; [lia|].
+    fold B. destruct (B x) as [|b1 r] eqn:EB.
+    + assert (E : c3_node true x [] (map M []) false (legacy_ro (S f) g x) = ROk [x] false).
+      { unfold c3_node. cbn [map]. rewrite c3_merge_textbook.
+        - cbn [app]. rewrite merge_front by (intros s [<-|[]] []). reflexivity.
+        - repeat constructor; intros []. }
+      rewrite E.
+      assert (EBx : Br x = [root]).
+      { unfold Br. rewrite (Br_nonroot g root x Ex). fold B. rewrite EB. reflexivity. }
+      assert (Cr : c3_lin Br (S F) root = Some [root]).
+      { rewrite (c3_lin_S Br). unfold Br. rewrite (Br_root g root). reflexivity. }
+      rewrite EBx. cbn [map all_some]. rewrite Cr. cbn [app].
+      rewrite merge_single by (constructor; [intros []|constructor]). cbn [option_map].
+      unfold root_last, last_is. cbn. apply Nat.eqb_neq in Ex. rewrite Ex. reflexivity.
+    + assert (EBr : Br x = B x) by (apply (Br_bases g root R0); fold B; rewrite EB; discriminate).
+      assert (HL : forall b, In b (Br x) -> c3_lin Br (S F) b = Some (M b) /\ Lin Br b (M b)).
+      { intros b Hb. rewrite EBr in Hb. destruct (W x) as [_ Rk]. specialize (Rk _ Hb).
+        assert (Hn : c3_lin Br (S (S F)) b <> None) by (apply HB; fold B; rewrite <- EB; auto).
+        destruct (c3_lin Br (S (S F)) b) as [l|] eqn:Cb; [|congruence].
+        assert (Cb' : c3_lin Br (S F) b = Some l).
+        { rewrite <- Cb. apply (c3_lin_fuel Br (rk_rooted rk root) Wr); unfold rk_rooted;
+            destruct (Nat.eqb b root); lia. }
+        assert (EM : M b = l) by (eapply (fresh_sro_eq_c3 g rk root W R0); [|exact Cb]; lia).
+        rewrite EM. split; auto. apply (c3_lin_lin Br (rk_rooted rk root) Wr _ _ _ Cb'). }
+      assert (AS : all_some (map (c3_lin Br (S F)) (Br x)) = Some (map M (Br x))).
+      { rewrite all_some_all.
+        - f_equal. apply map_ext_in. intros b Hb. unfold unwrap. destruct (HL b Hb) as [-> _]. auto.
+        - intros b Hb. destruct (HL b Hb) as [-> _]. discriminate. }
+      rewrite AS. rewrite <- EB in *. rewrite <- EBr.
+      rewrite (c3_node_spec Br (rk_rooted rk root) Wr) by (intros b Hb; apply HL; auto).
+      unfold node in *.
+      destruct (merge (map M (Br x) ++ [Br x])) as [l'|] eqn:Mg; cbn [option_map]; auto.
+      assert (L : Lin Br x (x :: l')).
+      { eapply (merge_lin Br (rk_rooted rk root) Wr); eauto. intros b Hb. apply HL; auto. }
+      destruct (lin_rooted_last g root _ _ L) as [l0 El]. rewrite El, root_last_id. reflexivity.
+Qed.
+End StrictSro.
+
+Lemma strict_sro_thm rk g root x f F : wfb rk g = true -> bases g root = [] ->
+  rk x < S f -> rk x < F ->
+  (forall b, In b (bases g x) -> c3_lin (rooted root (bases g)) (S F) b <> None) ->
+  calc_sro true root (S f) g (fresh_sro f root g) x =
+  match c3_lin (rooted root (bases g)) (S F) x with Some l => ROk l false | None => RRaise end.
+Proof. intros W R. apply (calc_sro_strict g rk root (wfb_wf _ _ W) R). Qed.
